@@ -66,7 +66,7 @@ def atofModel (buf : List Nat) : Dbl :=
   let r := s.dropWhile isDigit
   let fp := if r.head? == some cDot then (r.drop 1).takeWhile isDigit else []
   if ip.isEmpty && fp.isEmpty then zero false
-  else roundNE neg (natOfDigits (ip ++ fp)) (10 ^ fp.length)
+  else roundRat neg (natOfDigits (ip ++ fp)) (10 ^ fp.length)
 
 /-- the precision loop
 `do { n = sprintf(buf, *p, x); ++p; } while (atof(buf) != x && *p != 0);`
@@ -148,6 +148,14 @@ def numberToString (cfg : NumCfg) : Dbl → Out
           match postProcess buf with
           | none => .memErr
           | some s => .ok s
+
+/-- did the precision loop end because the text read back equal (`atof(theBuffer) == theValue`)?
+Decidable per value; `false` exactly for the values the loop leaves at the last precision without a
+match (the tiny numbers of the known finding) or that overrun the buffer. -/
+def readsBack (cfg : NumCfg) (neg : Bool) (m : Nat) (e : Int) : Bool :=
+  match printLoop cfg.buffer neg m e cfg.precisions with
+  | some buf => (atofModel buf).ieeeEq (.fin neg m e)
+  | none => false
 
 /-! ### specification of the output shape (XPath 1.0 §4.2, `string()` of a number) -/
 
